@@ -7,8 +7,9 @@ import GorumsV.Props.C09
 namespace GorumsV.C12
 open GorumsV.ConnMgr
 
-/-- after Close, when nothing can move any more, both goroutines have exited — unless the receiver is
-    blocked in the back-pressure wedge of C09 -/
+/-- after Close, when nothing can move any more, both goroutines have exited — unless a goroutine is
+    blocked in the back-pressure wedge of C09 (the receiver in `routeResponse` / `cancelPendingMsgs`, or either
+    goroutine in the `cancelPendingMsgs` of `reconnect`) -/
 theorem closed_stuck_means_exited (s : St) (h : Reachable s) (hc : s.closed = true) (hs : Stuck s = true) :
     (s.spc = .exited ∧ (s.rpc = .exited ∨ s.rpc = .absent)) ∨ ShapeBackpressure s = true :=
   C09.closed_stuck_means_exited s h hc hs
